@@ -2,20 +2,28 @@ import FitProps.WriterIntegrityLemmas
 import FitModel.Integrity
 import FitModel.Generated.WireConsts
 import FitProps.C09
+import FitProps.WriterCrashLemmas
+import FitProps.WriterShortLemmas
 /-!
 # C11 — Destination failures surface as errors; incomplete output is never a valid file
 
 Fault model: `Writer.Faults` — the k-th operation on the destination (Write, WriteAt, Seek — also the ones the buffered
 writer issues when it flushes) fails after taking at most j bytes, for ANY set of (k, j). A crash "the first k operations
 and j bytes of the next write took effect" is the final state of the run under the schedule "operation k takes j bytes and
-fails": the encoder stops issuing operations at the first failure. (That link is checked, not proved: every sweep of
-family enc-faults replays the healthy run's operation sequence up to (k, j) and compares it with the faulted run — on the
-real encoder and on the model.)
+fails": the encoder stops issuing operations at the first failure. That link is PROVED for the model
+(`C11_fault_is_crash_prefix`, `_stream`, `C11_call_fault_is_crash_prefix`: from any encoder state, every kind, buffer size,
+chain, batch and stream; lemmas in FitProps/WriterCrashLemmas.lean) and still re-checked per fault point: every sweep of
+family enc-faults replays the healthy run's operation sequence up to (k, j) (`Dest.run (crashOps k j ops)`, the very
+definitions of the theorem) and compares it with the faulted run — on the real encoder and on the model.
 
 PROPERTY THEOREMS (audited by ./check): C11_write_error_surfaces, C11_error_surfaces_batch, C11_success_means_no_fault,
 C11_error_surfaces_stream, C11_call_error_surfaces (from any state, any validator, call by call), C11_consts (obligation on
 the regenerated profile version), C11_prefix_never_valid, C11_prefix_never_valid_stream, C11_stale_header_witness (the
-finding F13 / KF-C11-1, repaired in /repo f65e050; the theorems speak about both variants through `StreamCfg`).
+finding F13 / KF-C11-1, repaired in /repo f65e050; the theorems speak about both variants through `StreamCfg`),
+C11_fault_is_crash_prefix, C11_fault_is_crash_prefix_stream, C11_call_fault_is_crash_prefix,
+C11_validated_call_fault_is_crash_prefix, C11_crash_prefix_never_valid,
+and — destinations that return a short count WITHOUT error, outside the property's assumption — C11_short_write_model_refines,
+C11_short_write_buffered_safe, C11_short_write_witness (all at the end of the file).
 The model's encoder has no panic outcome (its result type is writer state × success); a panic of the implementation
 under a fault is a disagreement of the `enc-faults` family.
 -/
@@ -209,6 +217,201 @@ theorem C11_stale_header_witness :
     (Witness.run ⟨false⟩).1.e.w.d.content ≠ encodeChain Witness.o [(Witness.h, [Witness.m1])] ∧
     (Witness.run ⟨false⟩).1.e.w.d.content ≠ encodeChain Witness.o [(Witness.h, [Witness.m1]), (Witness.h, [Witness.m1, Witness.m2])] ∧
     Fit.Integrity.checkIntegrity (Witness.run ⟨true⟩).1.e.w.d.content = .err .notFit 1 := by
+  decide +kernel
+
+/-! ### the single-fault run IS the crash state of the healthy run (proved; also re-checked per sweep by the driver) -/
+
+/-- FAULT SCHEDULE ⇒ CRASH PREFIX, batch. From ANY state `e` of the encoder — every destination kind (plain writer,
+`WriteSeeker`, `WriterAt`, both), every write-buffer size (0 = no bufio layer), anything buffered, any sticky error, any
+options, any destination content/position (no assumption on it at all) — and for every chain `fs` of FIT values: let
+`ops` be the operations the destination sees in the healthy run (the healthy destination IS the replay of `ops`:
+content, position and log). Under the schedule "operation `k` takes `j` bytes and fails" (`k` counted as the
+destination counts, from its log) the destination ends up as the replay of `crashOps … ops` — the first operations in
+full, operation `k` cut to `j` bytes and logged as failed (a `Seek` just fails; a failed `WriteAt` keeps its `j`
+bytes at its offset), and NOTHING after it — and the chaining loop reports an error. When the healthy run never
+reaches operation `k` the two runs are identical. -/
+theorem C11_fault_is_crash_prefix (k j : Nat) (o : Opts) (e : Enc) (fs : List FitIn) (hk : e.w.d.log.length ≤ k) :
+    ∃ ops : List DOp,
+      (encodeChainW noFault o e fs).1.w.d = e.w.d.run ops ∧
+      (encodeChainW (single k j) o e fs).1.w.d = e.w.d.run (crashOps (k - e.w.d.log.length) j ops) ∧
+      (k - e.w.d.log.length < ops.length → (encodeChainW (single k j) o e fs).2.2 = false) ∧
+      (ops.length ≤ k - e.w.d.log.length → encodeChainW (single k j) o e fs = encodeChainW noFault o e fs) :=
+  crash_of_sim (dst := fun r : Enc × Nat × Bool => r.1.w.d) (ok := fun r => r.2.2) e.w.d hk
+    (encodeChainW_sim k j o fs e hk) (encodeChainW_ext _ o fs e) (encodeChainW_ext _ o fs e)
+
+/-- FAULT SCHEDULE ⇒ CRASH PREFIX, stream: the same for series of `WriteMessage` … `SequenceCompleted` from ANY state of
+the stream encoder (as pinned and as repaired), empty sequences included. -/
+theorem C11_fault_is_crash_prefix_stream (k j : Nat) (c : StreamCfg) (o : Opts) (h : Fit.Wire.Hdr) (s : Stream)
+    (mss : List (List WMsg)) (hk : s.e.w.d.log.length ≤ k) :
+    ∃ ops : List DOp,
+      (Stream.chain noFault c o h s mss).1.e.w.d = s.e.w.d.run ops ∧
+      (Stream.chain (single k j) c o h s mss).1.e.w.d = s.e.w.d.run (crashOps (k - s.e.w.d.log.length) j ops) ∧
+      (k - s.e.w.d.log.length < ops.length → (Stream.chain (single k j) c o h s mss).2.2 = false) ∧
+      (ops.length ≤ k - s.e.w.d.log.length → Stream.chain (single k j) c o h s mss = Stream.chain noFault c o h s mss) :=
+  crash_of_sim (dst := fun r : Stream × Nat × Bool => r.1.e.w.d) (ok := fun r => r.2.2) s.e.w.d hk
+    (stream_chain_sim k j c o h mss s hk) (stream_chain_ext _ c o h mss s) (stream_chain_ext _ c o h mss s)
+
+/-- … and call by call: one `Encode`, one `WriteMessage`, one `SequenceCompleted`, from any state. -/
+theorem C11_call_fault_is_crash_prefix (k j : Nat) (c : StreamCfg) (o : Opts) (h : Fit.Wire.Hdr) :
+    (∀ (e : Enc) (f : FitIn), e.w.d.log.length ≤ k → ∃ ops : List DOp,
+      (encode noFault o e f).1.w.d = e.w.d.run ops ∧
+      (encode (single k j) o e f).1.w.d = e.w.d.run (crashOps (k - e.w.d.log.length) j ops) ∧
+      (k - e.w.d.log.length < ops.length → (encode (single k j) o e f).2 = false) ∧
+      (ops.length ≤ k - e.w.d.log.length → encode (single k j) o e f = encode noFault o e f)) ∧
+    (∀ (s : Stream) (m : WMsg), s.e.w.d.log.length ≤ k → ∃ ops : List DOp,
+      (s.writeMessage noFault o h m).1.e.w.d = s.e.w.d.run ops ∧
+      (s.writeMessage (single k j) o h m).1.e.w.d = s.e.w.d.run (crashOps (k - s.e.w.d.log.length) j ops) ∧
+      (k - s.e.w.d.log.length < ops.length → (s.writeMessage (single k j) o h m).2 = false) ∧
+      (ops.length ≤ k - s.e.w.d.log.length → s.writeMessage (single k j) o h m = s.writeMessage noFault o h m)) ∧
+    (∀ (s : Stream), s.e.w.d.log.length ≤ k → ∃ ops : List DOp,
+      (s.sequenceCompleted noFault c o h).1.e.w.d = s.e.w.d.run ops ∧
+      (s.sequenceCompleted (single k j) c o h).1.e.w.d = s.e.w.d.run (crashOps (k - s.e.w.d.log.length) j ops) ∧
+      (k - s.e.w.d.log.length < ops.length → (s.sequenceCompleted (single k j) c o h).2 = false) ∧
+      (ops.length ≤ k - s.e.w.d.log.length → s.sequenceCompleted (single k j) c o h = s.sequenceCompleted noFault c o h)) := by
+  refine ⟨fun e f hk => ?_, fun s m hk => ?_, fun s hk => ?_⟩
+  · exact crash_of_sim (dst := fun r : Enc × Bool => r.1.w.d) (ok := fun r => r.2) e.w.d hk
+      (encode_sim k j o e f hk) (encode_ext _ o e f) (encode_ext _ o e f)
+  · exact crash_of_sim (dst := fun r : Stream × Bool => r.1.e.w.d) (ok := fun r => r.2) s.e.w.d hk
+      (writeMessage_sim k j o h s m hk) (writeMessage_ext _ o h s m) (writeMessage_ext _ o h s m)
+  · exact crash_of_sim (dst := fun r : Stream × Bool => r.1.e.w.d) (ok := fun r => r.2) s.e.w.d hk
+      (sequenceCompleted_sim k j c o h s hk) (sequenceCompleted_ext _ c o h s) (sequenceCompleted_ext _ c o h s)
+
+/-- … and for the entry points AS THE API HAS THEM, validators in front (any message validator; these are the functions
+the driver runs against the real `Encode` / `WriteMessage` / `SequenceCompleted`): `CrashPrefix k j d₀ dF dH okF same` says
+there is an operation sequence `ops` with `dH = d₀.run ops` (healthy run), `dF = d₀.run (crashOps … ops)` (faulted run), the
+faulted call does not report `ok` when `ops` reaches operation `k`, and `same` when it does not. -/
+theorem C11_validated_call_fault_is_crash_prefix {σ : Type} (V : MsgValidator σ) (k j : Nat) (c : StreamCfg) (o : Opts)
+    (h : Fit.Wire.Hdr) :
+    (∀ (e : Enc) (f : FitIn), e.w.d.log.length ≤ k →
+      CrashPrefix k j e.w.d (encodeV V (single k j) o e f).1.w.d (encodeV V noFault o e f).1.w.d
+        (decide ((encodeV V (single k j) o e f).2 = .ok)) (encodeV V (single k j) o e f = encodeV V noFault o e f)) ∧
+    (∀ (s : Stream) (vs : σ) (m : WMsg), s.e.w.d.log.length ≤ k →
+      CrashPrefix k j s.e.w.d (s.writeMessageV V (single k j) o h vs m).1.e.w.d (s.writeMessageV V noFault o h vs m).1.e.w.d
+        (decide ((s.writeMessageV V (single k j) o h vs m).2.2 = .ok))
+        (s.writeMessageV V (single k j) o h vs m = s.writeMessageV V noFault o h vs m)) ∧
+    (∀ (s : Stream) (vs : σ), s.e.w.d.log.length ≤ k →
+      CrashPrefix k j s.e.w.d (s.sequenceCompletedV V (single k j) c o h vs).1.e.w.d (s.sequenceCompletedV V noFault c o h vs).1.e.w.d
+        (decide ((s.sequenceCompletedV V (single k j) c o h vs).2.2 = .ok))
+        ((s.sequenceCompletedV V (single k j) c o h vs).1 = (s.sequenceCompletedV V noFault c o h vs).1 ∧
+         (s.sequenceCompletedV V (single k j) c o h vs).2.2 = (s.sequenceCompletedV V noFault c o h vs).2.2)) := by
+  refine ⟨fun e f hk => encodeV_crash V k j o e f hk, fun s vs m hk => ?_, fun s vs hk => ?_⟩
+  · exact crash_of_sim (dst := fun r : Stream × σ × Res => r.1.e.w.d) (ok := fun r => decide (r.2.2 = .ok)) s.e.w.d hk
+      (writeMessageV_sim V k j o h s vs m hk) (writeMessageV_ext V _ o h s vs m) (writeMessageV_ext V _ o h s vs m)
+  · obtain ⟨ops, a1, a2, a3, a4⟩ := crash_of_sim (dst := fun r : Stream × Bool => r.1.e.w.d) (ok := fun r => r.2) s.e.w.d hk
+      (sequenceCompleted_sim k j c o h s hk) (sequenceCompleted_ext _ c o h s) (sequenceCompleted_ext _ c o h s)
+    obtain ⟨f1, f2⟩ := sequenceCompletedV_eq V (single k j) c o h s vs
+    obtain ⟨g1, g2⟩ := sequenceCompletedV_eq V noFault c o h s vs
+    refine ⟨ops, by rw [g1]; exact a1, by rw [f1]; exact a2, fun hlt => ?_, fun hle => ?_⟩
+    · have := a3 hlt
+      rw [f2, this]; rfl
+    · rw [f1, g1, f2, g2, a4 hle]; exact ⟨rfl, rfl⟩
+
+/-- CRASH STATES OF THE HEALTHY RUN ARE NEVER VALID FILES (the two halves together): for default headers, any kind and
+buffer size, on a destination that is empty or holds an accepted stream and has seen no operation yet: take the operation
+sequence `ops` of the HEALTHY run; the destination obtained by replaying its first `k` operations in full and `j` bytes
+of operation `k` is accepted by the integrity check only if its content is `d₀` followed by the first `m` complete
+sequences — and such a crash state is what the faulted run leaves, with an error returned. -/
+theorem C11_crash_prefix_never_valid (k j : Nat) (o : Opts) (kind : Kind) (size : Nat) (d₀ : Dest) (n₀ : Nat) (fs : List FitIn)
+    (hlog : d₀.log = []) (hend : d₀.pos = d₀.content.length) (hown : kind = .at → n₀ = d₀.content.length)
+    (hbase : d₀.content = [] ∨ Acc d₀.content) (hz : ∀ f ∈ fs, ZeroHdr o f) :
+    ∃ ops : List DOp,
+      (encodeChainW noFault o (Fit.C09.encOn o kind size d₀ n₀) fs).1.w.d = d₀.run ops ∧
+      (encodeChainW (single k j) o (Fit.C09.encOn o kind size d₀ n₀) fs).1.w.d = d₀.run (crashOps k j ops) ∧
+      (k < ops.length → (encodeChainW (single k j) o (Fit.C09.encOn o kind size d₀ n₀) fs).2.2 = false) ∧
+      (Acc (d₀.run (crashOps k j ops)).content →
+        ∃ m, m ≤ fs.length ∧ (d₀.run (crashOps k j ops)).content = d₀.content ++ encodeChain o (fitsOf (fs.take m))) := by
+  have hk : (Fit.C09.encOn o kind size d₀ n₀).w.d.log.length ≤ k := by
+    show d₀.log.length ≤ k
+    rw [hlog]; exact Nat.zero_le _
+  obtain ⟨ops, h1, h2, h3, _⟩ := C11_fault_is_crash_prefix k j o (Fit.C09.encOn o kind size d₀ n₀) fs hk
+  have hd : (Fit.C09.encOn o kind size d₀ n₀).w.d = d₀ := rfl
+  have h0 : k - d₀.log.length = k := by rw [hlog]; rfl
+  rw [hd] at h1 h2 h3
+  rw [h0] at h2 h3
+  refine ⟨ops, h1, h2, h3, fun hacc => ?_⟩
+  rw [← h2] at hacc ⊢
+  exact C11_prefix_never_valid (single k j) o kind size d₀ n₀ fs hend hown hbase hz hacc
+
+/-- the theorem is not vacuous: a WriterAt destination behind a 4-byte write buffer, one message; the healthy run issues
+4 operations (header and definition written through, data record + CRC flushed together, `WriteAt` of the header); under
+"operation 3 takes 2 bytes and fails" the destination log is the first three operations and the `WriteAt` cut to 2 bytes
+and failed, the content is the replay (27 bytes), and `Encode` reports the error -/
+example :
+    (encodeChainW noFault Witness.o (Enc.new Witness.o .at 4 ⟨[], 0, []⟩) [⟨Witness.h, 0, [Witness.m1]⟩]).1.w.d.log.length = 4 ∧
+    (encodeChainW (single 3 2) Witness.o (Enc.new Witness.o .at 4 ⟨[], 0, []⟩) [⟨Witness.h, 0, [Witness.m1]⟩]).1.w.d.log.reverse =
+      crashOps 3 2 (encodeChainW noFault Witness.o (Enc.new Witness.o .at 4 ⟨[], 0, []⟩) [⟨Witness.h, 0, [Witness.m1]⟩]).1.w.d.log.reverse ∧
+    (encodeChainW (single 3 2) Witness.o (Enc.new Witness.o .at 4 ⟨[], 0, []⟩) [⟨Witness.h, 0, [Witness.m1]⟩]).2.2 = false ∧
+    (encodeChainW (single 3 2) Witness.o (Enc.new Witness.o .at 4 ⟨[], 0, []⟩) [⟨Witness.h, 0, [Witness.m1]⟩]).1.w.d.content.length = 27 := by
+  decide +kernel
+
+/-- … and a failing `Seek`: an unbuffered WriteSeeker, the seek back of the header rewrite (operation 4) fails — the log is
+the four writes and the failed seek, nothing after it, error returned -/
+example :
+    (encodeChainW noFault Witness.o (Enc.new Witness.o .seek 0 ⟨[], 0, []⟩) [⟨Witness.h, 0, [Witness.m1]⟩]).1.w.d.log.length = 7 ∧
+    (encodeChainW (single 4 0) Witness.o (Enc.new Witness.o .seek 0 ⟨[], 0, []⟩) [⟨Witness.h, 0, [Witness.m1]⟩]).1.w.d.log.reverse =
+      crashOps 4 0 (encodeChainW noFault Witness.o (Enc.new Witness.o .seek 0 ⟨[], 0, []⟩) [⟨Witness.h, 0, [Witness.m1]⟩]).1.w.d.log.reverse ∧
+    (encodeChainW (single 4 0) Witness.o (Enc.new Witness.o .seek 0 ⟨[], 0, []⟩) [⟨Witness.h, 0, [Witness.m1]⟩]).1.w.d.log.head? =
+      some (.seek (-27) false) ∧
+    (encodeChainW (single 4 0) Witness.o (Enc.new Witness.o .seek 0 ⟨[], 0, []⟩) [⟨Witness.h, 0, [Witness.m1]⟩]).2.2 = false := by
+  decide +kernel
+
+/-! ### destinations that break `io.Writer`'s contract: a short count WITHOUT error (`FitModel/WriterShort.lean`)
+
+All theorems above assume the contract (`n < len(p)` comes with an error: `Writer.Faults`). What the code does when a
+destination answers `(n < len(p), nil)` is modelled separately (`Sched`, `…R` functions: `bufio.Writer.Write` as the loop it
+is) and tied by the `s`-entries of family enc-faults. -/
+
+/-- THE EXTENDED MODEL IS THE MODEL on contract-abiding schedules — in particular the unrolled `bufio.Writer.Write` of
+`FitModel/Writer.lean` IS the loop of bufio.go (≤ 3 rounds) —: every theorem of this file speaks about the extended
+model too as long as short counts come with an error. -/
+theorem C11_short_write_model_refines (F : Faults) (c : StreamCfg) (o : Opts) (h : Fit.Wire.Hdr) :
+    (∀ (w : W) (p : Bytes), w.writeR (Sched.ofFaults F) p = w.write F p) ∧
+    (∀ (e : Enc) (fs : List FitIn), encodeChainR (Sched.ofFaults F) o e fs = encodeChainW F o e fs) ∧
+    (∀ {σ : Type} (V : MsgValidator σ) (e : Enc) (f : FitIn), encodeVR V (Sched.ofFaults F) o e f = encodeV V F o e f) ∧
+    (∀ {σ : Type} (V : MsgValidator σ) (s : Stream) (vs : σ) (m : WMsg),
+      s.writeMessageVR V (Sched.ofFaults F) o h vs m = s.writeMessageV V F o h vs m) ∧
+    (∀ {σ : Type} (V : MsgValidator σ) (s : Stream) (vs : σ),
+      s.sequenceCompletedVR V (Sched.ofFaults F) c o h vs = s.sequenceCompletedV V F c o h vs) :=
+  ⟨W.writeR_ofFaults F, fun e fs => encodeChainR_ofFaults F o fs e, fun V e f => encodeVR_ofFaults V F o e f,
+    fun V s vs m => writeMessageVR_ofFaults V F o h s vs m, fun V s vs => sequenceCompletedVR_ofFaults V F c o h s vs⟩
+
+/-- BEHIND A WRITE BUFFER SHORT WRITES ARE HARMLESS: for every buffer size > 0 and EVERY schedule of answers — errors and
+short counts without error, anywhere — a series of `Write` calls followed by `Flush` that all report success has left
+exactly the written bytes, in order, behind what was there (`bufio.Writer.Write` writes the remainder of a short direct
+write again; `Flush` turns a short count into `io.ErrShortWrite`). So with the encoder's default 4096-byte buffer a
+contract-breaking destination either gets every byte or makes a call fail. -/
+theorem C11_short_write_buffered_safe (R : Sched) (w : W) (ps : List Bytes) (hs : w.size ≠ 0)
+    (hend : w.d.pos = w.d.content.length) (hok : (writesFlushR R w ps).2 = true) :
+    (writesFlushR R w ps).1.d.content = w.d.content ++ w.buf ++ ps.flatten ∧ (writesFlushR R w ps).1.buf = [] :=
+  writesFlushR_acc R ps w hs hend hok
+
+namespace Witness
+/-- operation `k` takes `j` bytes and returns NO error; everything else is healthy -/
+def shortAt (k j : Nat) : Sched := { resp := fun i => if i = k then .short j else .ok, extra := 1 }
+def runShort (kind : Kind) (bs k j : Nat) := encodeChainR (shortAt k j) o (Enc.new o kind bs ⟨[], 0, []⟩) [⟨h, 0, [m1]⟩]
+def whole : Bytes := encodeChain o [(h, [m1])]
+end Witness
+
+/-- … AND WITHOUT A BUFFER THEY ARE NOT NOTICED (`WithWriteBufferSize(0)`; the assumption "the destination honours
+io.Writer's contract" is necessary there). Kernel-evaluated runs of one sequence (27 bytes):
+(1) unbuffered plain writer, the definition record's `Write` takes 4 of 9 bytes and returns nil: `Encode` reports success,
+    5 bytes are missing from the destination, the integrity check rejects it;
+(2) the same answer behind a 4-byte buffer (header write, 5 of 14 bytes): bufio writes the other 9 bytes again — success,
+    the destination holds the complete sequence; also when 0 bytes were taken;
+(3) a 4096-byte buffer, the final flush takes 20 of 27 bytes and returns nil: `io.ErrShortWrite` — `Encode` fails;
+(4) unbuffered write-at / seeker destination, the header rewrite (`WriteAt`, or `Write` after the seek back) takes 5 of
+    14 bytes: success is reported (`_, err = w.WriteAt(…)` ignores the count; the seek forward uses it), the header is
+    half rewritten and the integrity check rejects it. -/
+theorem C11_short_write_witness :
+    ((Witness.runShort .plain 0 1 4).2 = (1, true) ∧ (Witness.runShort .plain 0 1 4).1.w.d.content.length = 22 ∧
+      Fit.Integrity.checkIntegrity (Witness.runShort .plain 0 1 4).1.w.d.content = .err .eof 0) ∧
+    ((Witness.runShort .plain 4 0 5).2 = (1, true) ∧ (Witness.runShort .plain 4 0 5).1.w.d.content = Witness.whole ∧
+      (Witness.runShort .plain 4 0 0).2 = (1, true) ∧ (Witness.runShort .plain 4 0 0).1.w.d.content = Witness.whole) ∧
+    ((Witness.runShort .plain 4096 0 20).2 = (0, false) ∧ (Witness.runShort .plain 4096 0 20).1.w.d.content = Witness.whole.take 20) ∧
+    ((Witness.runShort .at 0 4 5).2 = (1, true) ∧ (Witness.runShort .seek 0 5 5).2 = (1, true) ∧
+      (Witness.runShort .at 0 4 5).1.w.d.content = (Witness.runShort .seek 0 5 5).1.w.d.content ∧
+      (Witness.runShort .at 0 4 5).1.w.d.content ≠ Witness.whole ∧
+      Fit.Integrity.checkIntegrity (Witness.runShort .at 0 4 5).1.w.d.content = .err .crc 0) := by
   decide +kernel
 
 end Fit.C11
